@@ -245,6 +245,26 @@ Proof.
     + rewrite Proofs.Pick.rr_pick_ok by discriminate. cbn [bind]. split; [discriminate|intros [_ H]; discriminate].
 Qed.
 
+(* ---- the scanner limit ---- *)
+Lemma scan_parse_short pweight text : has_long_line text = false -> scan_parse pweight text = parse pweight text.
+Proof. unfold scan_parse, has_long_line. now intros ->. Qed.
+
+Lemma scan_parse_np pweight text : scan_parse pweight text <> Panic.
+Proof.
+  unfold scan_parse. destruct (existsb too_long (split_byte text 10)).
+  - apply Proofs.TableCmd.bind_np; [apply Proofs.TableCmd.parse_lines_np|discriminate].
+  - apply Proofs.TableCmd.parse_lines_np.
+Qed.
+
+(* a text with a line the scanner cannot hold never yields definitions: an error, always *)
+Lemma scan_parse_long pweight text : has_long_line text = true -> exists k, scan_parse pweight text = Err k.
+Proof.
+  unfold scan_parse, has_long_line. intros ->.
+  pose proof (Proofs.TableCmd.parse_lines_np pweight (short_prefix (split_byte text 10))) as Hnp.
+  destruct (parse_lines pweight (short_prefix (split_byte text 10))) as [ds|k|]; cbn [bind];
+    [now exists e_line_too_long|now exists k|congruence].
+Qed.
+
 Section BuildProofs.
   Variable pweight : str -> outcome wt.
   Variable canon : str -> option str.
@@ -334,17 +354,19 @@ Section BuildProofs.
     destruct (ring_table t) as [bt|k1|]; cbn [bind]; try discriminate. intros H; inversion H; subst. now apply IH.
   Qed.
 
-  (** the composition is conservative over C05's NewTable: whenever the composed build does not
-      crash it returns C05's table (with rings attached) or C05's error.  So every C05 theorem
-      about [new_table] holds for the tables this build installs. *)
-  Theorem full_build_refines text :
+  (** the composition is conservative over C05's NewTable on C05's domain (every line fits the
+      scanner): whenever the composed build does not crash it returns C05's table (with rings
+      attached) or C05's error.  So every C05 theorem about [new_table] holds for the tables this
+      build installs. *)
+  Theorem full_build_refines text : has_long_line text = false ->
     match full_build text with
     | Ok bt => new_table pweight canon glob_ok text = Ok (forget bt)
     | Err k => new_table pweight canon glob_ok text = Err k
     | Panic => True
     end.
   Proof.
-    unfold TableSwap.full_build, new_table, TableSwap.build_defs, run.
+    intros Hs. unfold TableSwap.full_build. rewrite (scan_parse_short pweight text Hs).
+    unfold new_table, TableSwap.build_defs, run.
     destruct (parse pweight text) as [ds|k|]; cbn [bind]; [|reflexivity|exact I].
     destruct (build_from [] ds) as [t|k|] eqn:E; cbn [bind]; [| |exact I].
     - rewrite (build_from_ok _ _ _ E). cbn [bind].
@@ -352,6 +374,14 @@ Section BuildProofs.
       + now rewrite (ring_table_forget _ _ Er).
       + exfalso. eapply ring_table_no_err; eauto.
     - now rewrite (build_from_err _ _ _ E).
+  Qed.
+
+  (** long_line_rejected: a text with a line of 65536 bytes or more is never turned into a table -
+      not a shorter one either: NewTable returns an error (so the update loop keeps the last good one) *)
+  Theorem long_line_rejected text : has_long_line text = true -> exists k, full_build text = Err k.
+  Proof.
+    intros Hl. unfold TableSwap.full_build. destruct (scan_parse_long pweight text Hl) as (k & ->).
+    now exists k.
   Qed.
 
   (* ---- no panic while building ---- *)
@@ -441,12 +471,12 @@ Section BuildProofs.
   Qed.
 
   Theorem full_build_total text :
-    (forall ds, parse pweight text = Ok ds -> Forall route_ok (reached [] ds)) ->
+    (forall ds, scan_parse pweight text = Ok ds -> Forall route_ok (reached [] ds)) ->
     full_build text <> Panic /\ forall bt, full_build text = Ok bt -> bt_good bt.
   Proof.
     intros H. unfold TableSwap.full_build.
-    pose proof (Proofs.TableCmd.parse_lines_np pweight (split_byte text 10)) as Hp. fold (parse pweight text) in Hp.
-    destruct (parse pweight text) as [ds| |]; cbn [bind]; [|split; [discriminate|intros ? ?; discriminate]|congruence].
+    pose proof (scan_parse_np pweight text) as Hp.
+    destruct (scan_parse pweight text) as [ds| |]; cbn [bind]; [|split; [discriminate|intros ? ?; discriminate]|congruence].
     apply build_defs_total. now apply H.
   Qed.
 
@@ -538,7 +568,7 @@ Section BuildProofs.
   Qed.
   Theorem full_build_keys_ok text bt : full_build text = Ok bt -> bt_keys_ok bt.
   Proof.
-    unfold TableSwap.full_build. destruct (parse pweight text); cbn [bind]; try discriminate. apply build_keys_ok.
+    unfold TableSwap.full_build. destruct (scan_parse pweight text); cbn [bind]; try discriminate. apply build_keys_ok.
   Qed.
 
   (* the custom backend's builder: same commands, plus the invalid-command error *)
@@ -553,6 +583,27 @@ Section BuildProofs.
       apply Forall_app in H. tauto. }
     destruct (build_step t d) as [t'| |] eqn:E; cbn [bind]; [|discriminate|congruence].
     apply IH. rewrite (build_step_ok _ _ _ E) in H. apply Forall_app in H. tauto.
+  Qed.
+
+  Lemma custom_from_reached ds : forall t t', custom_from t ds = Ok t' ->
+    forall r, In r (flat_map snd t') -> In r (reached t (known_defs ds)).
+  Proof.
+    induction ds as [|[d|] ds IH]; intros t t'; cbn [TableSwap.custom_from known_defs TableSwap.reached].
+    - intros H; inversion H; auto.
+    - destruct (build_step t d) as [t1| |] eqn:E; cbn [bind]; try discriminate.
+      rewrite (build_step_ok _ _ _ E). intros H r Hr. apply in_or_app. right. eapply IH; eauto.
+    - discriminate.
+  Qed.
+
+  Lemma custom_build_np ds : Forall route_ok (reached [] (known_defs ds)) -> custom_build ds <> Panic.
+  Proof.
+    intros H. unfold TableSwap.custom_build.
+    pose proof (custom_from_np ds [] H) as Hnp.
+    destruct (custom_from [] ds) as [t| |] eqn:E; cbn [bind]; [|discriminate|congruence].
+    assert (Hfin : Forall route_ok (flat_map snd (sort_table t))).
+    { apply Forall_forall. intros r Hr. rewrite Forall_forall in H. apply H.
+      eapply custom_from_reached; eauto. now apply in_sort_table. }
+    destruct (ring_table_good _ Hfin) as (bt & -> & _). discriminate.
   Qed.
 End BuildProofs.
 
@@ -608,7 +659,7 @@ End LookupProofs.
 
 Theorem new_table_total :
   forall pweight canon glob_ok order text, perm_order order ->
-  (forall ds, parse pweight text = Ok ds -> Forall route_ok (reached canon glob_ok [] ds)) ->
+  (forall ds, scan_parse pweight text = Ok ds -> Forall route_ok (reached canon glob_ok [] ds)) ->
   full_build pweight canon glob_ok (ring_faithful order) text <> Panic
   /\ forall bt, full_build pweight canon glob_ok (ring_faithful order) text = Ok bt ->
      forall hostglob_ok host tls uri m globoff total,
@@ -626,6 +677,15 @@ Theorem custom_build_total : forall canon glob_ok order ds t, perm_order order -
   Forall route_ok (reached canon glob_ok t (known_defs ds)) ->
   custom_from canon glob_ok (ring_faithful order) t ds <> Panic.
 Proof. intros canon glob_ok order ds t Hord. exact (custom_from_np canon glob_ok order Hord ds t). Qed.
+
+(* NewTableCustom as a whole, a nil definition list (poll body null) included: never a panic *)
+Theorem custom_build_ptr_total : forall canon glob_ok order (o : option (list (option def))), perm_order order ->
+  (forall ds, o = Some ds -> Forall route_ok (reached canon glob_ok [] (known_defs ds))) ->
+  custom_build_ptr canon glob_ok (ring_faithful order) o <> Panic.
+Proof.
+  intros canon glob_ok order [ds|] Hord H; cbn [custom_build_ptr]; [|discriminate].
+  exact (custom_build_np canon glob_ok order Hord ds (H ds eq_refl)).
+Qed.
 
 (* ====================================================================================== *)
 (** * (b) the update loops                                                                  *)
@@ -699,7 +759,7 @@ End LoopProofs.
 
 (** the update loop over the composed builder never reaches [Crashed]: C01's loop, for every history *)
 Theorem watch_never_crashes pweight canon glob_ok order : perm_order order ->
-  (forall text ds, parse pweight text = Ok ds -> Forall route_ok (reached canon glob_ok [] ds)) ->
+  (forall text ds, scan_parse pweight text = Ok ds -> Forall route_ok (reached canon glob_ok [] ds)) ->
   forall h w,
     wrun (full_build pweight canon glob_ok (ring_faithful order)) (Running w) h
     = Running (Watch.run btable (build_opt (full_build pweight canon glob_ok (ring_faithful order))) w h).
@@ -849,12 +909,12 @@ Definition domain_text : str :=
   ++ bs "route weight h.com/ weight 0.5 tags ""x""" ++ nl ++ bs "route del a" ++ nl
   ++ bs "route add d *.h.com/p http://d/".
 Example total_nonvacuous :
-  (forall ds, parse pw_wit domain_text = Ok ds -> Forall route_ok (reached canon_wit glob_wit [] ds))
+  (forall ds, scan_parse pw_wit domain_text = Ok ds -> Forall route_ok (reached canon_wit glob_wit [] ds))
   /\ fb_wit domain_text <> Panic.
 Proof.
-  assert (H : forall ds, parse pw_wit domain_text = Ok ds -> Forall route_ok (reached canon_wit glob_wit [] ds)).
+  assert (H : forall ds, scan_parse pw_wit domain_text = Ok ds -> Forall route_ok (reached canon_wit glob_wit [] ds)).
   { intros ds Hds. apply route_ok_forallb.
-    assert (E : match parse pw_wit domain_text with
+    assert (E : match scan_parse pw_wit domain_text with
                 | Ok ds => forallb (fun r => Nat.leb (length (r_targets r)) 1000) (reached canon_wit glob_wit [] ds)
                 | _ => false end = true) by (vm_compute; reflexivity).
     rewrite Hds in E. exact E. }
@@ -907,7 +967,26 @@ Theorem custom_carry_over_refuted :
       end).
 Proof. vm_compute. repeat split; reflexivity. Qed.
 
-(* F-C02-10 (open): a poll whose body is the JSON value null crashes the polling goroutine
-   (NewTableCustom(nil)), whatever the table; any other decodable body cannot (custom_build_total) *)
-Theorem custom_null_body_crashes cbuild cell : custom_poll_body cbuild cell None = None.
+(* F-C02-10 (fixed by /repo 618785e).  Before: a poll whose body is the JSON value null crashed the
+   polling goroutine (NewTableCustom(nil)), whatever the table.  Now: an error, the table stays. *)
+Theorem custom_null_body_crashes_unrepaired cbuild cell : custom_poll_body_unrepaired cbuild cell None = None.
 Proof. reflexivity. Qed.
+Theorem custom_null_body_rejected cbuild cell : custom_poll_body cbuild cell None = Some cell.
+Proof. reflexivity. Qed.
+
+(* F-C02-9 (fixed by /repo 5dd66bf).  Before: route.Parse never looked at scanner.Err(); a line of
+   65536 bytes ended the scan and NewTable returned the table of the lines before it without an error -
+   the update loop installed that partial table.  Now: an error, at exactly that length (65535 bytes
+   still fit). *)
+Definition xs (n : N) : str := repeat 120%N (N.to_nat n).
+Definition long_text : str :=
+  bs "route add a a.test/ http://h/" ++ nl ++ xs 65536 ++ nl ++ bs "route add c c.test/ http://h/".
+Theorem long_line_truncates_unrepaired :
+  match full_build_scan_unrepaired pw_wit canon_wit glob_wit (ring_faithful stable_order) long_text with
+  | Ok bt => map fst bt = [bs "a.test"]
+  | _ => False
+  end
+  /\ fb_wit long_text = Err e_line_too_long
+  /\ has_long_line (xs 65535 ++ nl ++ bs "x") = false
+  /\ has_long_line (bs "x" ++ nl ++ xs 65536) = true.
+Proof. vm_compute. repeat split; reflexivity. Qed.
